@@ -443,6 +443,16 @@ def probe_image(img, pw, tmp, want_path):
             except BaseException:  # noqa
                 pass
     if want_path:
+        # opened from a stream py7zr walks the folders one after the other (no threads): a different branch of Worker.extract
+        try:
+            with py7zr.SevenZipFile(io.BytesIO(img), "r", password=pw) as z:
+                out["testzip_stream"] = ["ok", z.testzip()]
+        except _Timeout:
+            raise
+        except BaseException as e:  # noqa
+            if _blown(e):
+                return {"fatal": "memory"}
+            out["testzip_stream"] = ["err"] + _err(e)
         dest = os.path.join(tmp, "out")
         shutil.rmtree(dest, ignore_errors=True)
         try:
@@ -671,9 +681,12 @@ def judge(o, pristine, want_path):
         else:
             bad_extract = True
     tz, ts = o.get("testzip"), o.get("test")
-    if bad_extract and tz is not None and tz[0] == "ok" and tz[1] is None:
-        viol.append(("testzip-certifies-damaged", "testzip() returned None while extraction %s" % (
-            "raised %s" % sig_of(ex[1:]) if ex[0] != "ok" else "delivered different content")))
+    for key, how in (("testzip", ""), ("testzip_stream", " (archive opened from a stream)")):
+        v = o.get(key)
+        if bad_extract and v is not None and v[0] == "ok" and v[1] is None:
+            viol.append(("testzip-certifies-damaged", "testzip()%s returned None while extraction %s" % (
+                how, "raised %s" % sig_of(ex[1:]) if ex[0] != "ok" else "delivered different content")))
+            break
     if bad_extract and ts is not None and ts[0] == "ok" and ts[1] is True:
         viol.append(("test-certifies-damaged", "test() returned True while extraction %s" % (
             "raised %s" % sig_of(ex[1:]) if ex[0] != "ok" else "delivered different content")))
@@ -782,7 +795,7 @@ def explore(ctx):
             continue
         tz, ts = pristine["testzip"], pristine["test"]
         rep.count(("intact", lab), nontrivial=True)
-        if tz != ["ok", None] or ts[0] != "ok" or ts[1] is False:
+        if tz != ["ok", None] or ts[0] != "ok" or ts[1] is False or pristine.get("testzip_stream", ["ok", None]) != ["ok", None]:
             rep.violation("intact archive %s: test() = %r, testzip() = %r" % (lab, ts, tz),
                           {"kind": "intact", "spec": spec, "base": a["base"].hex()},
                           match_keys={"kind": "intact-flagged", "archive": lab, "test": repr(ts), "testzip": repr(tz)})
@@ -1144,16 +1157,14 @@ def corr_flow(ctx, rng):
             n += 1
             rep.count(("flow", json.dumps([shape, decs, skip])), nontrivial=len(shape[1]) > 1)
             rep.dist("flow_outcome", {0: "done", 1: "CrcError", 2: "other error"}[got[0]])
-            ok = [got == w for w in wants]
-            if wants[0] != wants[1] and any(ok):
-                v = ok[1]
-                if variant["symcheck"] is None:
-                    variant["symcheck"] = v
-                elif variant["symcheck"] != v:
-                    ok = [False, False]
-            if not any(ok):
-                rep.violation("Worker.extract over scripted decoders: implementation %r, model %r (symcheck=false) / %r (true); "
-                              "shape %r decoders %r skip_notarget=%s" % (got, wants[0], wants[1], shape, decs, skip),
+            if wants[0] != wants[1]:
+                variant["symcheck"] = (got == wants[1]) if variant["symcheck"] in (None, True) else False
+            if got != wants[1]:
+                what = "Worker.extract over scripted decoders: implementation %r, model %r" % (got, wants[1])
+                if got == wants[0]:
+                    what = ("REGRESSION a symbolic link is created from bytes whose CRC was not compared (the behaviour before "
+                            "commit c33fe91): implementation %r, model %r" % (got, wants[1]))
+                rep.violation(what + "; shape %r decoders %r skip_notarget=%s" % (shape, decs, skip),
                               {"kind": "flow", "shape": shape, "decs": decs, "skip": skip, "call": "extract"},
                               concrete=False, match_keys={"kind": "flow-mismatch", "call": "extract"})
                 break
@@ -1177,8 +1188,8 @@ def corr_flow(ctx, rng):
     rep.extra["implementation_variant"] = {
         "symcheck (symbolic-link branch compares the CRC)": variant["symcheck"],
         "tzfolder (testzip reports a folder-level CRC error)": variant["tzfolder"],
-        "meaning": "symcheck false = the symbolic-link branch compares no CRC (C04_delivered_implies_checked_refuted applies); "
-                   "tzfolder true = testzip_impl, the model the theorems C04_testzip_sound/_none_extract_ok are about"}
+        "meaning": "true/true = extract_impl and testzip_impl, the models the headline theorems are about; false = a return to "
+                   "the behaviour of the regression examples (reported as a violation)"}
     rep.extra["correspondence_flow_cases"] = n
     return variant
 
